@@ -50,6 +50,8 @@ def step' (st : St) : List String → St × String
   | ["xto", _, _, _] | ["xcommit", _] | ["xdelto", _] | ["xdelfrom", _] | ["xcancel", _] => (st, "err")
   -- malformed create-to contents and initiations: refused whatever the state, nothing changes
   | ["tobad", _, _, _, _] | ["frombad", _, _, _, _] => (st, "err")
+  -- an executed batch sent again: the request it names was consumed, nothing runs
+  | ["reto", _] | ["recancel", _] => (st, "err")
   | ["rebin", _] => (st, "ok")        -- same records in the old binary encoding: no change of meaning
   | ["dump"] => (st, dump st)
   | _ => (st, "bad-op")
@@ -64,6 +66,8 @@ def clause : List String → String
   | "to" :: _ => "credit_at_most_once"
   | "cancel" :: _ => "refund_exact"
   | "tobad" :: _ | "frombad" :: _ => "malformed_request_refused"
+  | "reto" :: _ => "credit_at_most_once"
+  | "recancel" :: _ => "refund_exact"
   | "xto" :: _ | "xcommit" :: _ | "xdelto" :: _ | "xdelfrom" :: _ | "xcancel" :: _ => "robot_step_by_stranger"
   | _ => "record_lifecycle"
 
